@@ -17,7 +17,9 @@ LEVEL = "exploration"
 EXHAUSTIVE = ("all settings of the prescribed grid (None, ints -1..4, pairs over {None,-1..4} as tuple "
               "and list, strings, floats, wrong-length tuples) x child counts 0..5 x 3 kinds x both "
               "setter forms; every valid setting x 3 formats x string/file persistence")
-RULE = ("grid: itertools.product over the settings/count/kind/setter-form space (complete); histories: "
+RULE = ("forest: Hypothesis-built documents (<= 3 top Sections x <= 2 sub-Sections x <= 2 Properties drawn from "
+        "tiny name pools, so content-equal objects under different parents are common), validated as a "
+        "whole; non-trivial = >= 2 objects violate their cardinality. grid: itertools.product over the settings/count/kind/setter-form space (complete); histories: "
         "Hypothesis lists of set-cardinality/add/remove/validate steps. Non-trivial = the child count "
         "lies on a boundary of the stored cardinality (== min, == max, min == max, min == 0) or the "
         "setting is invalid; distinct = distinct (kind, form, setting, count) cell or distinct history")
@@ -46,6 +48,9 @@ def settings():
     out += [list(p) for p in pairs]
     out += ["1", "(1, 2)", "", "None", 1.0, 1.5, 0.0, 2.0, (), (1,), (1, 2, 3), [], [1], [1, 2, 3],
             (None,), (0, 0.0), ("", 2), (1.0, 2), (1, 2.0), ("1", "2")]
+    # bounds with different numbers of digits (text order differs from numeric order)
+    out += [(2, 10), (9, 10), (3, 12), (20, 100), (10, 12), (None, 10), (100, None), (10, 10), (10, 9),
+            (100, 20), 10, 100, [9, 11], (0, 10)]
     return out
 
 
@@ -266,11 +271,89 @@ def history_body(case):
     return (boundary and nset > 0), ["history:" + kind], fails
 
 
+# ------------------------------------------------------------------------------------
+# whole documents: every object of a tree gets exactly its own report
+
+_CARDS = [None, None, (1, None), (None, 1), (2, 2), (1, 3), (None, 2), (3, None), (2, 10), (0, 1)]
+_PROP = st.tuples(st.sampled_from(["p", "q"]), st.integers(0, 3), st.sampled_from(_CARDS))
+_LEAF = st.tuples(st.sampled_from(["x", "y"]), st.lists(_PROP, max_size=2, unique_by=lambda t: t[0]),
+                  st.sampled_from(_CARDS), st.sampled_from(_CARDS))
+_MID = st.tuples(st.sampled_from(["a", "b", "c"]), st.lists(_LEAF, max_size=2, unique_by=lambda t: t[0]),
+                 st.lists(_PROP, max_size=2, unique_by=lambda t: t[0]),
+                 st.sampled_from(_CARDS), st.sampled_from(_CARDS))
+FOREST = st.tuples(st.lists(_MID, min_size=1, max_size=3, unique_by=lambda t: t[0]),
+                   st.sampled_from(["doc", "doc.validate", "top_section"]))
+
+
+def forest_body(case):
+    mids, entry = case
+    fails = []
+    doc = odml.Document()
+    objs = []          # (object, kind)
+
+    def add_props(sec, props):
+        for name, n, card in props:
+            p = odml.Property(name=name, values=list(range(n)), dtype="int", parent=sec)
+            p.val_cardinality = card
+            objs.append((p, "values"))
+
+    for name, leaves, props, scard, pcard in mids:
+        mid = odml.Section(name=name, type="t", parent=doc)
+        add_props(mid, props)
+        for lname, lprops, lscard, lpcard in leaves:
+            leaf = odml.Section(name=lname, type="t", parent=mid)
+            add_props(leaf, lprops)
+            leaf.sec_cardinality = lscard
+            leaf.prop_cardinality = lpcard
+            objs.extend([(leaf, "sections"), (leaf, "properties")])
+        mid.sec_cardinality = scard
+        mid.prop_cardinality = pcard
+        objs.extend([(mid, "sections"), (mid, "properties")])
+    if entry == "doc":
+        errs = Validation(doc).errors
+        scope = None
+    elif entry == "doc.validate":
+        errs = doc.validate().errors
+        scope = None
+    else:
+        top = doc.sections[0]
+        errs = Validation(top).errors
+        scope = {id(top)} | {id(o) for o in top.itersections()} | {id(o) for o in top.iterproperties()}
+    twins = 0
+    seen_content = []
+    expected_hits = 0
+    for obj, kind in objs:
+        if scope is not None and id(obj) not in scope:
+            continue
+        hits = [e for e in errs if e.validation_id == ISSUE[kind] and e.obj is obj]
+        stored = getattr(obj, ATTR[kind])
+        expect = M.violated(stored, count_of(obj, kind))
+        expected_hits += bool(expect)
+        if expect and any(o is not obj and o == obj and k == kind for o, k in seen_content):
+            twins += 1
+        seen_content.append((obj, kind))
+        if expect and len(hits) != 1:
+            fails.append(failure("card.report_missing", "document validation (%s): %s %r with %d %s and "
+                                 "cardinality %r: expected one warning for this object, got %d"
+                                 % (entry, type(obj).__name__, obj.get_path(), count_of(obj, kind), kind,
+                                    stored, len(hits)), kind=kind, scope="document"))
+        elif not expect and hits:
+            fails.append(failure("card.report_spurious", "document validation (%s): %s %r with %d %s and "
+                                 "cardinality %r: unexpected warning"
+                                 % (entry, type(obj).__name__, obj.get_path(), count_of(obj, kind), kind,
+                                    stored), kind=kind, scope="document"))
+        if any(not e.is_warning for e in hits):
+            fails.append(failure("card.rank", "document validation: cardinality issue reported as error",
+                                 kind=kind, scope="document"))
+    return expected_hits >= 2, ["forest:" + entry] + (["forest:equal_content_twins"] if twins else []), fails[:4]
+
+
 def plan(tier):
     shards = [{"name": "grid-" + k, "type": "grid", "kind": k} for k in KINDS]
     shards += [{"name": "persist-" + f, "type": "persist", "fmt": f} for f in ("XML", "JSON", "YAML")]
     nshards, n = (8, 250) if tier == "quick" else (10, 2000)
     shards += [{"name": "hist%d" % i, "type": "hist", "n": n} for i in range(nshards)]
+    shards += [{"name": "forest%d" % i, "type": "forest", "n": n} for i in range(2 if tier == "quick" else 4)]
     return shards
 
 
@@ -279,11 +362,30 @@ def run(shard, seed, ctx):
         run_grid(shard["kind"], ctx)
     elif shard["type"] == "persist":
         run_persist(shard["fmt"], ctx)
+    elif shard["type"] == "forest":
+        hyp.drive(ctx, "forest", FOREST.map(lambda c: [[list(m) for m in c[0]], c[1]]),
+                  lambda c: forest_body(_forest_case(c)), shard["n"], seed)
     else:
         hyp.drive(ctx, "history", HISTORY, history_body, shard["n"], seed)
 
 
+def _forest_case(case):
+    """JSON form (nested lists) -> the tuples forest_body reads; cardinalities become tuples again."""
+    def card(c):
+        return tuple(c) if isinstance(c, list) else c
+
+    def props(ps):
+        return [(n, k, card(c)) for n, k, c in ps]
+    mids = []
+    for name, leaves, ps, sc, pc in case[0]:
+        mids.append((name, [(ln, props(lp), card(ls), card(lpc)) for ln, lp, ls, lpc in leaves],
+                     props(ps), card(sc), card(pc)))
+    return mids, case[1]
+
+
 def replay(kind, case):
+    if kind == "forest":
+        return forest_body(_forest_case(case))[2]
     if kind == "grid":
         setting = eval(case["setting"], {"__builtins__": {}}, {})  # repr of plain literals
         return grid_case(case["kind"], case["form"], setting, case["count"])[0]
